@@ -47,6 +47,14 @@ def new_frames(d, var, rng):
         for i, r in enumerate(U):
             new.loc[r, var] = f"NEW{i % 2}"
         out.append((new, seen, U))
+        if U == [1]:
+            # an unseen value that only extends a seen level ('a' -> 'az'): unseen all the same
+            near = base.copy()
+            if var == "o":
+                near["o"] = near["o"].astype(object)
+            near[var] = near[var].astype(object)
+            near.loc[1, var] = str(seen.loc[0, var]) + "z"
+            out.append((near, seen, U))
         if U == [0, 3]:
             # the same new data stored as a pandas Categorical column (unordered, and ordered with permuted categories)
             for ordered in (False, True):
@@ -207,6 +215,16 @@ def check_config():
             else:
                 res.append(("config", f"{how} {key!r}={val!r}", "ok"))
             cfg["EVAL_UNSEEN_CATEGORIES"] = "error"
+    # the constructor takes the same documented values only
+    for val in ("error", "warning", "silent", "quiet", "Error", None, 0, ""):
+        try:
+            c_ = Config({"EVAL_UNSEEN_CATEGORIES": val})
+            okc = val in ("error", "warning", "silent") and c_["EVAL_UNSEEN_CATEGORIES"] == val
+            res.append(("config", f"Config({{'EVAL_UNSEEN_CATEGORIES': {val!r}}})", "ok" if okc else "an undocumented value was accepted by the constructor"))
+        except ValueError:
+            res.append(("config", f"Config({{'EVAL_UNSEEN_CATEGORIES': {val!r}}})", "ok" if val not in ("error", "warning", "silent") else "a documented value was refused"))
+        except Exception as ex:
+            res.append(("config", f"Config({{'EVAL_UNSEEN_CATEGORIES': {val!r}}})", f"raised {type(ex).__name__}"))
     if Config()["EVAL_UNSEEN_CATEGORIES"] != "error":
         res.append(("config", "default", "default mode is not 'error'"))
     return res
